@@ -613,6 +613,7 @@ func (w *World) verifyFunc(pi *PkgInfo, fd *ast.FuncDecl, c *Contract, mode stri
 		res.Assumptions = sortedKeys(vc.assumptions)
 		res.Callees = sortedKeys(vc.calleesWithContract)
 		res.Paths = vc.paths
+		vc.aborted = res.OutOfSubset != ""
 		vc.finishObligations()
 		res.Obls = vc.obls
 	}()
@@ -1052,7 +1053,9 @@ func (vc *VC) finishObligations() {
 			vc.addAxiom(smtEq(app("sqlverb", vc.strlits[lit]), fmt.Sprint(sqlVerbCode(lit))))
 		}
 	}
-	if vc.contract != nil {
+	// (when the run was aborted - the function left the subset or the contract no longer resolves - calls were not
+	// reached for that reason: the #subset obligation reports the function as undecided)
+	if vc.contract != nil && !vc.aborted {
 		for _, ca := range vc.contract.CallAsserts {
 			if !vc.callAssertSeen[fmt.Sprintf("%s %d %s", ca.Callee, ca.Ord, ca.Clause.Label)] {
 				// the call the assertion is anchored at does not exist (any more): the assertion cannot be established
